@@ -279,6 +279,7 @@ def endogenous_sets(tier):
     sets.append(['S1', 'S2', 'BAD3', 'IC', 'ET', 'LAG'][:n])       # no MaxTime line: the horizon stays at its default 0
     sets.append(['S1', 'S2', 'BAD4', 'BAD5', 'BAD6', 'MT'][:n] + (['MT'] if n < 6 else []))
     sets.append(['S1', 'S2', 'AGE', 'AGK', 'TU', 'LAG'][:n] + ['MT'])
+    sets.append(['S1', 'S2', 'BAD2', 'BAD1', 'BAD3', 'MT'][:n])     # several malformed lines of different kinds in one block: each one is reported
     if n >= 7:
         sets.append(['S1', 'S2', 'LAG', 'USE', 'IC', 'C1', 'MT'])
     return sets
